@@ -44,6 +44,8 @@ def classify(err, script_lines):
         return "cursor-size-overflow"
     if ue and ue.group(1) == "rfbclient.c" and "negation of -2147483648" in err:
         return "c18-client-cuttext-ub"        # found and fixed by C18 (fixes/C18-client-cuttext-negate.diff)
+    if ue and ue.group(1) == "ultra.c" and int(ue.group(2)) <= 150 and "signed integer overflow" in err:
+        return "ultra-buffer-alloc"
     if any(fn.startswith("HandleUltraZip") for fn in funcs) or (ue and ue.group(1) == "ultra.c" and int(ue.group(2)) > 150):
         return "ultrazip-bounds"
     if any(fn.startswith("HandleTRLE") for fn in funcs) and "trle.c" in files:
@@ -307,6 +309,71 @@ def structured_cases(rng, lzo):
             out.append({"script": build_script(head2, "eof", h3, [], b""), "kind": "guard", "expect_false": True, "tag": "guard:reason-cap"})
     out += handshake_cases()
     out += lzo_sequence_cases()
+    out += length_field_cases()
+    return out
+
+
+EDGE32 = [0, 1, 3, 4, 0x7FFFFFFC, 0x7FFFFFFD, 0x7FFFFFFE, 0x7FFFFFFF, 0x80000000, 0x80000001, 0xFFFFFFFC, 0xFFFFFFFF]
+
+
+def length_field_cases():
+    """every length-prefixed payload with its length field at the edges of `int` / `uint32_t`
+    (INT_MAX, INT_MAX-1..-3, 0x80000000, 0xFFFFFFFF, ...), on a fresh connection and after a valid
+    rectangle of the same encoding (buffers already allocated)"""
+    out = []
+    F = E.FMT_BY_NAME
+    for fmt in (F["bgr233"], F["rgb565le"], F["rgb888le"]):
+        bp = fmt.bytespp
+        W, H = 24, 6
+        head = ["client %s enc=ultra+zlib+zrle+tight cursor=0 fbmode=2" % " ".join(str(v) for v in fmt.tuple()), "seg 0"]
+        hs = E.handshake(F["rgb888le"], W, H, b"L")
+        px = bytes((i * 3 + 1) & 0x3F for i in range(8 * bp))
+        zco = zlib.compressobj(1)
+        zz = zco.compress(px) + zco.flush(zlib.Z_SYNC_FLUSH)
+        lz = c07.lzo_literal(px)
+        uzp = struct.pack(">HHHHI", 0, 0, 8, 1, 0) + px
+        uzl = c07.lzo_literal(uzp)
+        tile = b"\x01" + fmt.cpixel(px[:bp])
+        rco = zlib.compressobj(1)
+        rz = rco.compress(tile) + rco.flush(zlib.Z_SYNC_FLUSH)
+        valid = {
+            "ultra": (struct.pack(">HHHHI", 0, 0, 8, 1, 9) + struct.pack(">I", len(lz)) + lz, ["z 5 %s %s" % (hexs(lz), hexs(px))]),
+            "ultrazip": (struct.pack(">HHHHI", 1, len(uzp), 0, 0, E.ENC["ultrazip"]) + struct.pack(">I", len(uzl)) + uzl, []),
+            "zlib": (struct.pack(">HHHHI", 0, 0, 8, 1, 6) + struct.pack(">I", len(zz)) + zz, ["z 4 %s %s" % (hexs(zz), hexs(px))]),
+            "zrle": (struct.pack(">HHHHI", 0, 0, 8, 1, 16) + struct.pack(">I", len(rz)) + rz, ["z 6 %s %s" % (hexs(rz), hexs(tile))]),
+        }
+        hdr = {"ultra": struct.pack(">HHHHI", 0, 0, 8, 1, 9), "ultrazip": struct.pack(">HHHHI", 1, 20, 0, 0, E.ENC["ultrazip"]),
+               "zlib": struct.pack(">HHHHI", 0, 0, 8, 1, 6), "zrle": struct.pack(">HHHHI", 0, 0, 8, 1, 16)}
+        junk = bytes((7 * i + 5) & 0xFF for i in range(40))
+        for enc in ("ultra", "ultrazip", "zlib", "zrle"):
+            for v in EDGE32:
+                bad = E.fbu([hdr[enc] + struct.pack(">I", v) + junk])
+                out.append({"script": build_script(head, "eof", hs, [], bad), "kind": "guard", "expect_false": None, "tag": "guard:len32:" + enc})
+                out.append({"script": build_script(head, "eagain", hs, [], E.fbu([valid[enc][0]]) + bad, zlines=valid[enc][1]), "kind": "guard",
+                            "expect_false": None, "tag": "guard:len32:" + enc})
+                # the other LZO handler shares ultra_buffer / raw_buffer
+                if enc in ("ultra", "ultrazip"):
+                    other = "ultrazip" if enc == "ultra" else "ultra"
+                    out.append({"script": build_script(head, "eof", hs, [], bad + E.fbu([valid[other][0]]), zlines=valid[other][1]),
+                                "kind": "guard", "expect_false": None, "tag": "guard:len32:" + enc})
+        # Tight compact lengths (1..3 bytes, 22 bits) for copy / palette / gradient / JPEG / no-zlib control bytes
+        for ctl in (0x00, 0x40, 0x90, 0xA0, 0x30):
+            for cl in (b"\x00", b"\x01", b"\x7f", b"\x80\x01", b"\xff\x7f", b"\x80\x80\x01", b"\xff\xff\xff", b"\x80\x80\x00", b"\xff\xff\x00"):
+                filt = b"\x00" if ctl == 0x40 else b""
+                out.append({"script": build_script(head, "eof", hs, [], E.fbu([struct.pack(">HHHHI", 0, 0, 8, 3, 7) + bytes([ctl]) + filt + cl + junk])),
+                            "kind": "guard", "expect_false": None, "tag": "guard:tight-compact-len"})
+        # other server-supplied lengths: text chat, pseudo-encodings whose width is a byte count, screens
+        for v in EDGE32 + [10485760, 10485761]:
+            out.append({"script": build_script(head, "eof", hs, [], struct.pack(">BxxxI", 11, v) + junk), "kind": "guard", "expect_false": None,
+                        "tag": "guard:len32:textchat"})
+            out.append({"script": build_script(head, "eof", hs, [], struct.pack(">BxxxI", 3, v) + junk), "kind": "guard", "expect_false": None,
+                        "tag": "guard:len32:cuttext"})
+        for w16 in (0, 1, 255, 256, 32767, 32768, 65535):
+            for e in ("fffe0002", "fffe0003", "fffe0001"):
+                out.append({"script": build_script(head, "eof", hs, [], E.fbu([struct.pack(">HHHH", 0, 0, w16, w16) + bytes.fromhex(e) + junk])),
+                            "kind": "guard", "expect_false": None, "tag": "guard:len16:pseudo"})
+            out.append({"script": build_script(head, "eof", hs, [], E.fbu([struct.pack(">HHHHI", 0, 0, W, H, E.ENC["extdesktopsize"]) + bytes([w16 & 0xFF, 0, 0, 0]) + junk * 3])),
+                        "kind": "guard", "expect_false": None, "tag": "guard:len16:pseudo"})
     return out
 
 
